@@ -206,8 +206,46 @@ def nonappl_kind_dropped_by_oc_appid_check(finding: dict, src: str) -> bool:
     visited = set(path)
     for ins in p.ins:
         if p.ins[start_of[ins.idx]].line in visited and _OC_APPID_READ.match(" ".join([ins.op] + ins.args)):
-            return True
+            return _oc_appid_is_the_cause(finding, src)
     return False
+
+
+def _without_oc_appid(src: str) -> str:
+    """Diagnostic rewrite (NOT semantics-preserving): every OnCompletion / ApplicationID read becomes a read of a field
+    tealer does not interpret, so whatever the listed finding removes from the kind sets is back."""
+    out = []
+    for l in src.splitlines():
+        t = split_line(l)
+        if t and _OC_APPID_READ.match(" ".join(t)):
+            out.append(" ".join(t[:-1] + ["FirstValid"]))
+        else:
+            out.append(l)
+    return "\n".join(out) + "\n"
+
+
+def _oc_appid_is_the_cause(finding: dict, src: str) -> bool:
+    """Localisation for KF-C07-appid-oc: with the OnCompletion / ApplicationID reads made opaque, the kind that was missing
+    at the failing block is listed again.  If it is still missing, something else removed it: not this finding."""
+    tag = finding.get("claim") or ""
+    line = finding.get("block_line")
+    model = finding.get("model") or {}
+    if "context(" in tag or line is None or not model:
+        return True  # claims about another group member: not localised (attributed as before)
+    try:
+        from tealer.utils.teal_enums import TealerTransactionType as T
+        from vlib.tealerio import Run
+
+        te = int(model["fields"]["TypeEnum"][str(model["gi"])])
+        kind = {1: T.Pay, 4: T.Axfer}.get(te)
+        if kind is None:
+            return True
+        run = Run(_without_oc_appid(src), detectors=[])
+        b = run.block_at_line(line)
+        if b is None:
+            return True
+        return kind in run.ctx(b).transaction_types
+    except Exception:  # pylint: disable=broad-except
+        return True
 
 
 def _path_reads_oc_appid(finding: dict, src: str) -> bool:
@@ -228,7 +266,17 @@ def close_detector_silent_after_oc_appid_check(finding: dict, src: str) -> bool:
     was dropped by an OnCompletion / ApplicationID check on the approved path."""
     if finding.get("obligation") not in ("must-report:can-close-account", "must-report:can-close-asset"):
         return False
-    return _path_reads_oc_appid(finding, src)
+    if not _path_reads_oc_appid(finding, src):
+        return False
+    # localisation: with the OnCompletion / ApplicationID reads made opaque the detector reports; otherwise it is silent for
+    # another reason and the violation is not this finding
+    try:
+        from vlib.tealerio import Run
+
+        det = finding["obligation"].split(":", 1)[1]
+        return bool(Run(_without_oc_appid(src), detectors=[det]).paths[det])
+    except Exception:  # pylint: disable=broad-except
+        return True
 
 
 def hinted_early_exit_in_callee(finding: dict, src: str) -> bool:
